@@ -183,6 +183,11 @@ def step (s : St) (line : String) : St × String :=
   | "cmd.restore" :: ix :: args :: [] =>
     let w : Cmds.WS := ⟨entriesIn ix, [], [], none, [], false⟩
     (s, resOut (fun r => entriesOut ((r.mergeSort (fun a b => decide (a.path ≤ b.path))).eraseDups)) (Cmds.restoreWork w ((splitList args).map unhex)))
+  | ["cmd.commit", ix, sn, br, anyB, cl, cg, unix, off, msg] =>
+    let opt (x : String) : Option Bytes := if x == "none" then none else some (unhex x)
+    let i : Cmds.CommitIn := ⟨entriesIn ix, (if sn == "none" then none else some (entriesIn sn)), opt br, anyB == "1",
+      opt cl, opt cg, intOf unix, intOf off, unhex msg⟩
+    (s, resOut (fun r => hexOut r.1) (Cmds.commitCmd sha1Fn i))
   | "cmd.restore-staged" :: ix :: sn :: args :: [] =>
     let r := Cmds.restoreStagedArgs (entriesIn sn) ((splitList args).map unhex) (entriesIn ix)
     (s, (if r.1 then "ok " else "err ") ++ entriesOut r.2)
